@@ -350,6 +350,16 @@ def scatter_body(ctx, case):
     sel = mask == 1
     ctx.equal(out[:, :, sel], data, "make_subaps_2d(data, m)[:, :, m == 1] == data")
     ctx.require(not np.any(out[:, :, ~sel]), "make_subaps_2d non-zero outside the mask")
+    # history: the caller edits the SAME mask array in place (moves one sub-aperture) and calls again
+    on, off = np.argwhere(mask == 1), np.argwhere(mask != 1)
+    if len(on) and len(off):
+        a_, b_ = tuple(on[len(on) // 2]), tuple(off[len(off) // 3])
+        mask[a_], mask[b_] = mask[b_], mask[a_]
+        out2 = wfslib.make_subaps_2d(data, mask)
+        sel2 = mask == 1
+        ctx.equal(out2[:, :, sel2], data, "make_subaps_2d after an in-place edit of the same mask array: read-back through the edited mask")
+        ctx.require(not np.any(out2[:, :, ~sel2]), "make_subaps_2d after an in-place edit of the mask: non-zero outside the edited mask")
+        ctx.equal(wfslib.make_subaps_2d(data, m0), out, "make_subaps_2d with the original mask again")
 
 
 LAWS = [
